@@ -102,10 +102,18 @@ type simGenState struct {
 	nreq   []int // requests generated per client (complete ones)
 	events []string
 	v      *simView
+	focus  int // -1, or the kind of request (case of request()) this trace keeps coming back to
 }
+
+// the case being generated, up to and including the event that is being applied (for the report, should the real
+// code not come back from it)
+var simGenPartial string
+
+func (v *simView) PartialLine() string { return simGenPartial }
 
 func (g *simGenState) emit(ev string) {
 	g.events = append(g.events, ev)
+	simGenPartial = "sim " + g.run.cfg.String() + " | " + g.run.topo.String() + " | " + strings.Join(g.events, " ; ")
 	g.run.apply(ev)
 }
 
@@ -124,7 +132,13 @@ func (g *simGenState) key(ci int, withTag bool) []byte {
 func (g *simGenState) request(ci int) []byte {
 	r := g.rng
 	var args [][]byte
-	switch r.Intn(20) {
+	sel := r.Intn(20)
+	if g.focus >= 0 && r.Bool() {
+		// a trace that keeps coming back to one kind of split request: state that a recycled request object carries
+		// over (a DEL count, an MGET key index, an MSET status) only shows when the same kind follows itself
+		sel = g.focus
+	}
+	switch sel {
 	case 0:
 		args = [][]byte{randCase(r, "ping")}
 	case 1:
@@ -221,7 +235,10 @@ func (v *simView) Gen(rng *Rng, i int) string {
 		return "sim " + cfg.String() + " | " + topo.String() + " | "
 	}
 	defer run.env.Close()
-	g := &simGenState{run: run, rng: rng, v: v}
+	g := &simGenState{run: run, rng: rng, v: v, focus: -1}
+	if rng.Chance(1, 5) {
+		g.focus = []int{8, 8, 9, 4}[rng.Intn(4)]
+	}
 	nc := 1 + rng.Intn(3)
 	for c := 0; c < nc; c++ {
 		g.emit("C 10.9.9." + strconv.Itoa(c+1))
@@ -338,7 +355,11 @@ func (v *simView) Gen(rng *Rng, i int) string {
 			g.emit("T")
 		case x < 84:
 			if hb := halfBackends(); len(hb) > 0 && rng.Chance(2, 3) {
-				g.emit(fmt.Sprintf("f %d", hb[rng.Intn(len(hb))]))
+				if rng.Chance(1, 4) {
+					g.emit(fmt.Sprintf("g %d %d", hb[rng.Intn(len(hb))], rng.Intn(1<<20)))
+				} else {
+					g.emit(fmt.Sprintf("f %d", hb[rng.Intn(len(hb))]))
+				}
 			} else if pb := pendingBackends(); len(pb) > 0 {
 				answer(pb[rng.Intn(len(pb))], true)
 			} else {
